@@ -18,6 +18,7 @@
 
 #include "parser.h"
 #include "context.h"
+#include "functor_manager.h"
 #include "debug.h"
 #include "parse_statement.h"
 #include "parse_expression.h"
@@ -165,6 +166,7 @@ Statement * Parser::parseStatement()
     {
       state(Parsing);
       _ctx.parsingBegin();
+      _ctx.functorManager().parsingMark();
       Statement * s = ParseStatement::statement(*this, _ctx);
       _ctx.parsingEnd();
       state(End);
@@ -172,6 +174,7 @@ Statement * Parser::parseStatement()
     }
     catch (...)
     {
+      _ctx.functorManager().parsingRevert();
       _ctx.parsingEnd();
       state(End);
       throw;
@@ -210,6 +213,7 @@ Executable * Parser::parse(Context& ctx, StreamReader& reader, bool trace /*= fa
   try
   {
     ctx.parsingBegin();
+    ctx.functorManager().parsingMark();
     for (;;)
     {
       TokenPtr t;
@@ -233,6 +237,7 @@ Executable * Parser::parse(Context& ctx, StreamReader& reader, bool trace /*= fa
   }
   catch (ParseError& pe)
   {
+    ctx.functorManager().parsingRevert();
     ctx.parsingEnd();
     for (auto s : statements)
       delete s;
